@@ -60,6 +60,7 @@ type OpInst struct {
 	PadTo     int
 	Barrier   int
 	BGroup    string
+	BgTail    bool     // -bg: the last part of the first output is written by a child that outlives the command
 	Notes     []string // -note words: recorded, no influence on the result
 	StartStep int
 	StartNS   int64
@@ -224,11 +225,19 @@ type shellRun struct {
 	// `set -e` / `set -o pipefail`
 	errexit, pipefail bool
 	launcher          []string // launcher words stripped from the current simple command
+	children          WaitGroup // background children that inherited the script's stdout/stderr
 }
 
 // Exec runs a `bash -c` script. It returns combined output and an error for a
 // non-zero status or signal death.
-func (sh *Shell) Exec(script string) ([]byte, error) {
+func (sh *Shell) Exec(script string) ([]byte, error) { return sh.ExecMode(script, true) }
+
+// ExecMode: waitChildren says whether the caller collects the output through
+// a pipe (CombinedOutput, Output, or Stdout/Stderr set to a non-file writer):
+// it then only returns when every child holding the write end has exited. A
+// caller that hands the script a plain file (or nothing) as stdout/stderr
+// returns as soon as the shell itself exits.
+func (sh *Shell) ExecMode(script string, waitChildren bool) ([]byte, error) {
 	s := sh.s
 	s.Pre("exec", 0, script)
 	toks, err := tokenize(script)
@@ -261,6 +270,9 @@ func (sh *Shell) Exec(script string) ([]byte, error) {
 		if !skip && len(words) > 0 {
 			status, signal = r.simple(words, redir, redirTo)
 			if signal != "" {
+				if waitChildren {
+					r.children.Wait()
+				}
 				return r.out, &ExitError{Code: -1, Signal: signal}
 			}
 			lastStage := i >= len(toks) || toks[i].s != "|"
@@ -276,6 +288,9 @@ func (sh *Shell) Exec(script string) ([]byte, error) {
 			// element of an && list (bash: "part of any command executed in a && or
 			// || list except the command following the final && or ||")
 			if r.errexit && lastStage && status != 0 && (i >= len(toks) || toks[i].s == ";") {
+				if waitChildren {
+					r.children.Wait()
+				}
 				return r.out, &ExitError{Code: status}
 			}
 		}
@@ -296,6 +311,9 @@ func (sh *Shell) Exec(script string) ([]byte, error) {
 			}
 			i++
 		}
+	}
+	if waitChildren {
+		r.children.Wait()
 	}
 	if status != 0 {
 		return r.out, &ExitError{Code: status}
@@ -695,6 +713,8 @@ func (sh *Shell) parseOp(r *shellRun, w []string) *OpInst {
 			o.Barrier, _ = strconv.Atoi(need())
 		case "-bgroup":
 			o.BGroup = need()
+		case "-bg":
+			o.BgTail = true
 		case "-note":
 			// (the word may be empty and vanish: empty sub-stream)
 			if i+1 < len(w) && !strings.HasPrefix(w[i+1], "-") {
@@ -886,6 +906,26 @@ func (sh *Shell) runOp(r *shellRun, w []string) (int, string) {
 			continue
 		}
 		csize := (len(data) + chunks - 1) / chunks
+		if o.BgTail && idx == 0 && len(data) >= 2 && o.Fail == FailNone {
+			// `producer | tee >(filter > OUT)` style: the command returns while a
+			// child that inherited its stdout/stderr still writes the rest of OUT
+			half := len(data) / 2
+			if step("write-chunk", p) {
+				return sh.finish(o, -1, "killed")
+			}
+			fs.WriteAt(n, abs, 0, data[:half])
+			rest, node, ab := data[half:], n, abs
+			delay := 1000 + int64(s.Tape.Choose(StDur, 6, 0))*int64(o.DurNS+1000)
+			r.children.Add(1)
+			Go("op:background-writer", func() {
+				defer r.children.Done()
+				s.SleepNS(delay)
+				s.Pre("op-bg-write", 0, ab)
+				fs.WriteAt(node, ab, half, rest)
+			})
+			o.Written[p] = true
+			continue
+		}
 		for off := 0; off < len(data); off += csize {
 			end := off + csize
 			if end > len(data) {
